@@ -474,6 +474,7 @@ def run_inputs(case: dict, trace: bool = False,
 
 class C06(Profile):
     id = 'C06'
+    BACKENDS = ('dict', 'dict', 'dict', 'maildir')
     level = 'exploration'
     quick_budget_s = 45.0
     thorough_budget_s = 420.0
@@ -497,7 +498,9 @@ class C06(Profile):
     components = C01.components
 
     def gen(self, rng, tier):
-        return gen_input_case(rng, tier)
+        from .common import backends, finish_cfg
+        return finish_cfg(gen_input_case(
+            rng, tier, backends=backends(self.BACKENDS)), rng)
 
     def run(self, case, trace=False):
         return run_inputs(case, trace)
